@@ -557,8 +557,33 @@ async fn retry_ep<T>(log: &Arc<Log>, what: &str, mut f: impl FnMut() -> std::io:
     None
 }
 
+/// Server identities for the trust-policy scenarios (C10).
+fn make_identity(kind: &str) -> Identity {
+    let names = ["localhost", "127.0.0.1", "::1"];
+    let now = time::OffsetDateTime::now_utc();
+    let day = time::Duration::days(1);
+    let b = Identity::self_signed_builder().subject_alt_names(names);
+    match kind {
+        "days15" => b.from_now_utc().validity_days(15).build().expect("identity"),
+        "expired" => b.validity_period(now - day * 20, now - day * 10).build().expect("identity"),
+        "future" => b.validity_period(now + day, now + day * 5).build().expect("identity"),
+        "p384" | "ed25519" => {
+            let t = now.unix_timestamp();
+            let (der, key) = crate::tlscfg::mint(kind, t - 3600, t + 5 * 86400, names.iter().map(|s| s.to_string()).collect());
+            Identity::new(
+                wtransport::tls::CertificateChain::single(wtransport::tls::Certificate::from_der(der).expect("cert")),
+                wtransport::tls::PrivateKey::from_der_pkcs8(key),
+            )
+        }
+        _ => Identity::self_signed(names).expect("identity"),
+    }
+}
+
 fn sut_server_config(cfg: &Value) -> ServerConfig {
-    let id = Identity::self_signed(["localhost", "127.0.0.1", "::1"]).expect("identity");
+    sut_server_config_with(cfg, make_identity(s(cfg, "server_identity")))
+}
+
+fn sut_server_config_with(cfg: &Value, id: Identity) -> ServerConfig {
     let port = u(cfg, "port", 0) as u16;
     let b = if s(cfg, "bind") == "dual" {
         ServerConfig::builder().with_bind_config(wtransport::config::IpBindConfig::LocalDual, port)
@@ -578,12 +603,24 @@ fn sut_server_config(cfg: &Value) -> ServerConfig {
 }
 
 fn sut_client_config(cfg: &Value, server: SocketAddr) -> ClientConfig {
+    sut_client_config_with(cfg, server, None)
+}
+
+fn sut_client_config_with(cfg: &Value, server: SocketAddr, server_hash: Option<wtransport::tls::Sha256Digest>) -> ClientConfig {
     let b = if s(cfg, "bind") == "dual" {
         ClientConfig::builder().with_bind_default()
     } else {
         ClientConfig::builder().with_bind_address("127.0.0.1:0".parse().unwrap())
-    }
-    .with_no_cert_validation();
+    };
+    let b = match (s(cfg, "client_trust"), server_hash) {
+        ("hash_own", Some(h)) => b.with_server_certificate_hashes([h]),
+        ("hash_other", _) => b.with_server_certificate_hashes([wtransport::tls::Sha256Digest::new([9u8; 32])]),
+        ("hash_many_own", Some(h)) => b.with_server_certificate_hashes(
+            (0..8u8).map(|i| wtransport::tls::Sha256Digest::new([i; 32])).chain([h])),
+        ("hash_none", _) => b.with_server_certificate_hashes(Vec::<wtransport::tls::Sha256Digest>::new()),
+        ("native", _) => b.with_native_certs(),
+        _ => b.with_no_cert_validation(),
+    };
     let idle = u(cfg, "idle_ms", 20_000);
     let b = b
         .max_idle_timeout(Some(Duration::from_millis(idle)))
@@ -921,11 +958,17 @@ async fn setup(w: &mut World, scn: &Value) {
         }
         (_, "wt") => {
             // two wtransport endpoints: "app" has the scripted role, "app2" the other one
-            let Some(sep) = retry_ep(&w.log, "server endpoint", || Endpoint::server(sut_server_config(&cfg))).await else { return };
+            let id = make_identity(s(&cfg, "server_identity"));
+            let server_hash = id.certificate_chain().as_slice()[0].hash();
+            let mut id_slot = Some(id);
+            let Some(sep) = retry_ep(&w.log, "server endpoint", || {
+                let id = id_slot.take().unwrap_or_else(|| make_identity(s(&cfg, "server_identity")));
+                Endpoint::server(sut_server_config_with(&cfg, id))
+            }).await else { return };
             let addr: SocketAddr = format!("127.0.0.1:{}", sep.local_addr().unwrap().port())
                 .parse()
                 .unwrap();
-            let cep = Endpoint::client(sut_client_config(&cfg, addr)).expect("client ep");
+            let cep = Endpoint::client(sut_client_config_with(&cfg, addr, Some(server_hash))).expect("client ep");
             let (swho, cwho) = if role == "server" { ("app", "app2") } else { ("app2", "app") };
             let log = w.log.clone();
             let scn2 = scn.clone();
@@ -935,12 +978,19 @@ async fn setup(w: &mut World, scn: &Value) {
                 (c, sep)
             });
             let cc = sut_client_connect(&w.log, cwho, &cep, scn, addr).await;
-            let sc = match timeout(Duration::from_secs(12), accept).await {
+            // a client that was refused at the TLS level never reaches the server's session
+            // layer: do not wait long for a request that cannot come
+            let wait = if cc.is_some() { 12_000 } else { 1_500 };
+            let mut accept = accept;
+            let sc = match timeout(Duration::from_millis(wait), &mut accept).await {
                 Ok(Ok((c, sep))) => {
                     w.keep.push(Box::new(sep));
                     c
                 }
-                _ => None,
+                _ => {
+                    accept.abort();
+                    None
+                }
             };
             w.keep.push(Box::new(cep));
             if role == "server" {
@@ -1916,4 +1966,160 @@ pub fn run_file(path: &str, out: &str, threads: usize, par: usize) -> u64 {
     });
     log.flush();
     log.lines.load(Ordering::Relaxed)
+}
+
+// ---------------------------------------------------------------- C20 measurements
+
+/// Establishes the scenario's session, then waits for the connection to end.
+/// Returns (milliseconds until it ended or `wait_ms`, how it ended).
+pub async fn measure_idle(scn: &Value, wait_ms: u64) -> (u64, String) {
+    let log = Log::create("/dev/null");
+    let mut w = World {
+        log: log.for_scn("idle"),
+        cfg: json!({}),
+        app: None,
+        app2: None,
+        raw: None,
+        streams: Arc::new(tokio::sync::Mutex::new(Streams::default())),
+        tasks: HashMap::new(),
+        bg: Vec::new(),
+        keep: Vec::new(),
+    };
+    setup(&mut w, scn).await;
+    let Some(c) = w.app.clone() else { return (0, "nosession".into()) };
+    let t0 = std::time::Instant::now();
+    let r = timeout(Duration::from_millis(wait_ms), c.closed()).await;
+    let el = t0.elapsed().as_millis() as u64;
+    let how = match r {
+        Ok(ConnectionError::TimedOut) => "TimedOut".to_string(),
+        Ok(e) => format!("{e:?}").chars().take(40).collect(),
+        Err(_) => "alive".to_string(),
+    };
+    for h in w.bg.drain(..) {
+        h.abort();
+    }
+    (el, how)
+}
+
+async fn raw_session(addr: SocketAddr, cep: &quinn::Endpoint) -> Option<(quinn::Connection, quinn::SendStream, quinn::SendStream)> {
+    let conn = cep.connect_with(raw_client_config(&json!({})), addr, "localhost").ok()?.await.ok()?;
+    let mut ctrl = conn.open_uni().await.ok()?;
+    let mut b = vec![0x00];
+    b.extend(gen::frame(4, &default_settings_payload()));
+    ctrl.write_all(&b).await.ok()?;
+    let (mut rs, mut rr) = conn.open_bi().await.ok()?;
+    rs.write_all(&gen::frame(1, &default_request_payload())).await.ok()?;
+    // wait for the response HEADERS
+    timeout(Duration::from_secs(5), raw_read_frame(&mut rr)).await.ok()??;
+    tokio::spawn(async move {
+        let mut buf = [0u8; 64];
+        while let Ok(Some(_)) = rr.read(&mut buf).await {}
+    });
+    Some((conn, ctrl, rs))
+}
+
+/// A raw client moves to a new UDP socket mid-connection; is the session still usable?
+pub async fn measure_migration(allow: bool) -> bool {
+    let id = Identity::self_signed(["localhost"]).expect("id");
+    let cfg = ServerConfig::builder()
+        .with_bind_address("127.0.0.1:0".parse().unwrap())
+        .with_identity(id)
+        .allow_migration(allow)
+        .build();
+    let Ok(ep) = Endpoint::server(cfg) else { return false };
+    let addr: SocketAddr = format!("127.0.0.1:{}", ep.local_addr().unwrap().port()).parse().unwrap();
+    let srv = tokio::spawn(async move {
+        let inc = ep.accept().await;
+        let req = inc.await.ok()?;
+        let c = req.accept().await.ok()?;
+        // first stream before the move, second one after it
+        let a = timeout(Duration::from_secs(3), c.accept_uni()).await.ok()?.is_ok();
+        let b = matches!(timeout(Duration::from_millis(2500), c.accept_uni()).await, Ok(Ok(_)));
+        drop(ep);
+        Some(a && b)
+    });
+    let Ok(cep) = quinn::Endpoint::client("127.0.0.1:0".parse().unwrap()) else { return false };
+    let Some((conn, _ctrl, _rs)) = raw_session(addr, &cep).await else { return false };
+    let open = |c: quinn::Connection, tag: u8| async move {
+        if let Ok(mut s) = c.open_uni().await {
+            let mut b = gen::enc_varint(0x54);
+            b.extend(gen::enc_varint(0));
+            b.push(tag);
+            let _ = s.write_all(&b).await;
+            let _ = s.finish();
+            tokio::spawn(async move { let _ = s.stopped().await; });
+        }
+    };
+    open(conn.clone(), 1).await;
+    tokio::time::sleep(Duration::from_millis(100)).await;
+    let sock = std::net::UdpSocket::bind("127.0.0.1:0").expect("udp");
+    let _ = cep.rebind(sock);
+    open(conn.clone(), 2).await;
+    let r = srv.await.ok().flatten().unwrap_or(false);
+    conn.close(quinn::VarInt::from_u32(0), b"done");
+    r
+}
+
+fn peer_cert_hash(c: &quinn::Connection) -> Vec<u8> {
+    use sha2::Digest;
+    c.peer_identity()
+        .and_then(|a| a.downcast::<Vec<rustls_pki_types::CertificateDer<'static>>>().ok())
+        .and_then(|v| v.first().map(|d| sha2::Sha256::digest(d.as_ref()).to_vec()))
+        .unwrap_or_default()
+}
+
+/// reload_config(rebind = false): established connections keep working and keep their
+/// certificate, new connections see the new one.
+pub async fn measure_reload() -> Vec<(String, Value)> {
+    let mut out = Vec::new();
+    let id_a = Identity::self_signed(["localhost"]).expect("id");
+    let id_b = Identity::self_signed(["localhost", "second.example"]).expect("id");
+    let hash_a = id_a.certificate_chain().as_slice()[0].hash();
+    let hash_b = id_b.certificate_chain().as_slice()[0].hash();
+    let cfg_a = ServerConfig::builder().with_bind_address("127.0.0.1:0".parse().unwrap()).with_identity(id_a).build();
+    let Ok(ep) = Endpoint::server(cfg_a) else { return out };
+    let ep = Arc::new(ep);
+    let addr: SocketAddr = format!("127.0.0.1:{}", ep.local_addr().unwrap().port()).parse().unwrap();
+    let (tx, mut rx) = tokio::sync::mpsc::channel::<Connection>(4);
+    let ep2 = ep.clone();
+    let acc = tokio::spawn(async move {
+        loop {
+            let inc = ep2.accept().await;
+            let tx = tx.clone();
+            tokio::spawn(async move {
+                if let Ok(req) = inc.await {
+                    if let Ok(c) = req.accept().await {
+                        let _ = tx.send(c).await;
+                    }
+                }
+            });
+        }
+    });
+    let cep = quinn::Endpoint::client("127.0.0.1:0".parse().unwrap()).expect("raw ep");
+    let Some((c1, _k1, _r1)) = raw_session(addr, &cep).await else { return out };
+    let s1 = rx.recv().await;
+    out.push(("first_sees_a".into(), json!(peer_cert_hash(&c1) == hash_a.as_ref().to_vec())));
+    let cfg_b = ServerConfig::builder().with_bind_address("127.0.0.1:0".parse().unwrap()).with_identity(id_b).build();
+    let reloaded = ep.reload_config(cfg_b, false).is_ok();
+    out.push(("reload_ok".into(), json!(reloaded)));
+    let Some((c2, _k2, _r2)) = raw_session(addr, &cep).await else {
+        out.push(("second_connected".into(), json!(false)));
+        return out;
+    };
+    let _s2 = rx.recv().await;
+    out.push(("second_connected".into(), json!(true)));
+    out.push(("second_sees_b".into(), json!(peer_cert_hash(&c2) == hash_b.as_ref().to_vec())));
+    out.push(("first_still_a".into(), json!(peer_cert_hash(&c1) == hash_a.as_ref().to_vec())));
+    // the established session is undisturbed: a new stream on it is still accepted
+    let mut alive = false;
+    if let (Some(s1), Ok(mut st)) = (s1, c1.open_uni().await) {
+        let mut b = gen::enc_varint(0x54);
+        b.extend(gen::enc_varint(0));
+        b.push(9);
+        let _ = st.write_all(&b).await;
+        alive = matches!(timeout(Duration::from_secs(3), s1.accept_uni()).await, Ok(Ok(_)));
+    }
+    out.push(("old_alive".into(), json!(alive)));
+    acc.abort();
+    out
 }
